@@ -43,6 +43,8 @@ def Fl.mul := Fl.lift2 (· * ·)
 /-- `np.minimum`: NaN if either argument is. -/
 def Fl.min := Fl.lift2 rmin
 def Fl.abs : Fl → Fl | .num a => .num (rabs a) | .nan => .nan
+/-- `np.sign`: NaN for NaN. -/
+def Fl.sign : Fl → Fl | .num a => .num (rsign a) | .nan => .nan
 /-- division by a non-zero scalar -/
 def Fl.divS (x : Fl) (r : Rat) : Fl := match x with | .num a => .num (a / r) | .nan => .nan
 /-- comparisons with a scalar / another cell: False when NaN is involved -/
@@ -175,10 +177,71 @@ def bxor (a b : List Bool) : List Bool := List.zipWith (fun x y => x != y) a b
 
 /-- The array `utils.great_circle_distance(lat, lon)` returns, given the geodesic hop distances
     (an input of the model, DESIGN §2.2): 0 at the first position, the distance from the previous
-    position elsewhere — an UNMASKED NaN when one of the hop's four coordinates is missing
-    (`np.vectorize` runs the solver on the raw data and the result is a plain array). -/
-def hopCell (h : V) : Cell := match h with | some d => ⟨.num d, false⟩ | none => ⟨.nan, false⟩
+    position elsewhere — a MASKED NaN when one of the hop's four coordinates is missing (`np.vectorize` runs the
+    solver on the raw data, NaN in gives NaN out, and the frompyfunc ufunc it wraps unites the masks
+    of its four masked-array arguments; measured, and compared on every run by `props/np_prims.py`). -/
+def hopCell (h : V) : Cell := match h with | some d => ⟨.num d, false⟩ | none => ⟨.nan, true⟩
 def greatCircle (hops : List V) (n : Nat) : MArr := (List.range n).map fun i => hopCell (hopAt hops i)
+
+/-- `c == True` for a masked boolean array: numpy.ma's `==` puts, under the mask, the comparison of
+    the MASKS (masked vs. the unmasked scalar: False) — so the raw data under the mask never shows. -/
+def eqTrue (c : BArr) : BArr := c.map fun x => ⟨!x.m && x.d, x.m⟩
+
+/-- Python's builtin `any(c)` over a masked boolean array: iteration yields `np.ma.masked` (falsy)
+    for the masked elements. -/
+def anyB (c : BArr) : Bool := c.any fun x => !x.m && x.d
+
+/-- `dst[:-1] = src` / the write-back of a view `dst[:-1][cond] = x` (`src.length = dst.length - 1`). -/
+def setInit1 {α : Type} (dst src : List α) : List α := src ++ dst.drop src.length
+
+/-- `flag_arr[0] = x`: IndexError on an empty array. -/
+def setAt0 (fl : List Flag) (x : Flag) : Except Err (List Flag) :=
+  match fl with | [] => throw .index | _ :: r => pure (x :: r)
+
+/-- `a.mask | b.mask` on plain boolean arrays. -/
+def bor2 (a b : List Bool) : List Bool := List.zipWith (· || ·) a b
+
+/-- comparisons `<=`, `>=` with a scalar (raw comparison, same mask) -/
+def Fl.leS (x : Fl) (r : Rat) : Bool := match x with | .num a => decide (a ≤ r) | .nan => false
+def leS (a : MArr) (r : Rat) : BArr := a.map fun x => ⟨x.d.leS r, x.m⟩
+
+/-- `np.ma.masked_invalid(np.ma.array(inp, dtype=dtype))` (no `.filled(np.nan)`): a missing value is a
+    masked cell whose raw datum is WHATEVER the caller's array holds there (`junk`; NaN if it
+    does not say). -/
+def junkCell (x : V) (j : Fl) : Cell := match x with | some q => ⟨.num q, false⟩ | none => ⟨j, true⟩
+def ofInputJunk (xs : List V) (junk : List Fl) : MArr :=
+  (List.range xs.length).map fun i => junkCell (getV xs i) (junk.getD i .nan)
+
+/-! ### plain (unmasked) float arrays -/
+
+abbrev FArr := List Fl
+
+/-- `np.ma.filled(np.ma.masked_invalid(np.ma.array(inp).astype(np.float64)), np.nan)`: a plain
+    array with NaN at every missing value (whatever was under a mask is replaced). -/
+def ofInputFilled (xs : List V) : FArr := xs.map fun v => match v with | some q => .num q | none => .nan
+
+/-- `np.diff` of a plain array. -/
+def npDiff (a : FArr) : FArr := List.zipWith Fl.sub (tail1 a) (init1 a)
+
+def Fl.sumList : FArr → Fl
+  | [] => .num 0
+  | x :: xs => Fl.add x (Fl.sumList xs)
+
+/-- `np.mean`: NaN for an empty array (numpy warns), NaN as soon as one element is. -/
+def npMean (a : FArr) : Fl :=
+  if a.length = 0 then .nan else (Fl.sumList a).divS (a.length : Nat)
+
+/-- scalar * array -/
+def npMulS (s : Fl) (a : FArr) : FArr := a.map (Fl.mul s)
+
+/-- `a <= r` on a plain array -/
+def npLeS (a : FArr) (r : Rat) : List Bool := a.map (·.leS r)
+
+/-- `np.where(c)[0]`: the indices of the True entries, ascending. -/
+def npWhere (c : List Bool) : List Nat := (List.range c.length).filter fun i => c.getD i false
+
+/-- `flags[idx] = x` with an integer index array (all indices in range). -/
+def setIdx (fl : List Flag) (idx : List Nat) (x : Flag) : List Flag := idx.foldl (fun f i => f.set i x) fl
 
 /-! ## array-level transcriptions -/
 
